@@ -208,8 +208,18 @@ func shapeProblem(writes, emitted []string, open, clos string, object bool) (pro
 	problem = shapeProblem1(writes, emitted, open, clos, object)
 	if object {
 		for _, w := range writes {
-			if strings.Contains(w, ".Key›") && !strings.Contains(w, "Marshal") && !strings.Contains(w, "Quote") {
+			if !strings.Contains(w, "‹") || strings.Contains(w, "‹ex(") {
+				continue // punctuation or a child's example
+			}
+			// a key: the verbatim source token, or the output of an encoder
+			verbatim := strings.HasPrefix(w, "‹token(key") && strings.HasSuffix(w, ".Lex)›") && strings.Count(w, "‹") == 1
+			encoded := strings.Contains(w, "Marshal") || strings.Contains(w, "Quote")
+			switch {
+			case verbatim || encoded:
+			case strings.Contains(w, ".Key›"):
 				keyProblem = "the member key is written from the decoded key text without re-encoding (quotes, backslashes and control characters in a key come out unescaped)"
+			default:
+				keyProblem = "the member key is neither the verbatim source token nor the output of a JSON encoder, but a transformation of it (" + w + "): trimming or slicing a quoted token is wrong for keys that contain or end with escaped quotes"
 			}
 		}
 	}
